@@ -733,3 +733,56 @@ func messageHandlerOf(p *core.Prog, c ssa.CallInstruction) *ssa.Function {
 	}
 	return h
 }
+
+// replySubjectFact: the bool value v, being true (or false), says whether the
+// Reply member of a message is empty: `m.Reply == ""`, `len(m.Reply) == 0`,
+// `len(m.Reply) < 1`, `len(m.Reply) > 0` ... Returns (known, nonEmpty).
+func replySubjectFact(v ssa.Value, truth bool) (known, nonEmpty bool) {
+	bo, ok := v.(*ssa.BinOp)
+	if !ok {
+		return false, false
+	}
+	isReply := func(x ssa.Value) bool {
+		f, ok := core.LoadedField(x)
+		return ok && f.Name == "Reply" && strings.HasSuffix(f.Struct, "Msg")
+	}
+	x, y, op := bo.X, bo.Y, bo.Op
+	if _, isC := x.(*ssa.Const); isC {
+		x, y = y, x
+		switch op {
+		case token.LSS:
+			op = token.GTR
+		case token.GTR:
+			op = token.LSS
+		case token.LEQ:
+			op = token.GEQ
+		case token.GEQ:
+			op = token.LEQ
+		}
+	}
+	if k, isC := core.ConstString(y); isC && k == "" && isReply(x) {
+		switch op {
+		case token.EQL:
+			return true, !truth
+		case token.NEQ:
+			return true, truth
+		}
+		return false, false
+	}
+	lc, isCall := x.(*ssa.Call)
+	if !isCall || core.CalleeName(lc) != "builtin:len" || !isReply(lc.Call.Args[0]) {
+		return false, false
+	}
+	k, isC := core.ConstInt(y)
+	if !isC {
+		return false, false
+	}
+	// emptyWhenTrue: the comparison is true exactly for length 0 / false exactly for length 0
+	switch {
+	case k == 0 && op == token.EQL, k == 0 && op == token.LEQ, k == 1 && op == token.LSS:
+		return true, !truth
+	case k == 0 && op == token.NEQ, k == 0 && op == token.GTR, k == 1 && op == token.GEQ:
+		return true, truth
+	}
+	return false, false
+}
